@@ -222,8 +222,11 @@ func corpusProgram() *schemagen.Program {
 		{ID: 11, Name: "rsm", Req: "required", ReqText: "required", Type: &schemagen.Type{Kind: "map", Key: str, Elem: i32}},
 		{ID: 12, Name: "ru", Req: "required", ReqText: "required", Type: uT},
 		{ID: 13, Name: "li", Req: "default", Type: &schemagen.Type{Kind: "list", Elem: inT}},
+		{ID: 14, Name: "tl", Req: "required", ReqText: "required", Type: &schemagen.Type{Kind: "list", Elem: i32, Via: "a.L"}},
 	}}
 	f := &schemagen.File{Name: "a", Namespace: "c13corp.apkg"}
+	// a required field whose type is a typedef of a container (ZeroWriter, C13-6)
+	f.Defs = append(f.Defs, &schemagen.Def{Typedef: &schemagen.Typedef{File: "a", Name: "L", Type: li}})
 	for _, st := range []*schemagen.Struct{in, rq, u, s} {
 		f.Defs = append(f.Defs, &schemagen.Def{Struct: st})
 	}
@@ -257,6 +260,7 @@ func corpusValue() *valgen.Value {
 		{ID: 11, V: valgen.Map([][2]*valgen.Value{{valgen.Str([]byte("a")), I(1)}})},
 		{ID: 12, V: valgen.Struct([]valgen.FieldVal{{ID: 1, V: valgen.Some(I(9))}, {ID: 2, V: valgen.Nil()}})},
 		{ID: 13, V: valgen.List([]*valgen.Value{inV(1, 2, "p"), inV(3, 4, "q"), inV(5, 6, "r")})},
+		{ID: 14, V: list(5, 6)},
 	})
 }
 
